@@ -1,6 +1,8 @@
 """pyvc.loader -- loads the *real* source text of the repository modules (and of `maz`) and executes it with
-the shimmed builtins / library modules of pyvc.shim.  Nothing is copied or rewritten: the text compiled here
-is the text CPython would import (`/repo/puan/...`); its SHA-256 per function is recorded as evidence.
+the shimmed builtins / library modules of pyvc.shim.  Nothing is copied: the text compiled here is the text CPython
+would import (`/repo/puan/...`); its SHA-256 per function is recorded as evidence.  One mechanical rewrite is applied to
+the syntax tree before compilation: comprehensions are desugared to map/filter/lambda (pyvc.desugar, which states what
+it leaves untouched).
 """
 import ast
 import hashlib
@@ -24,6 +26,7 @@ class Repo:
         self.root = root
         self.mods = {}
         self.sources = {}
+        self.desugared = {}
         self.lib = shim.make_modules(numpy)
         self.numpy_mode = numpy_mode
         if numpy_mode == "sym":
@@ -66,7 +69,10 @@ class Repo:
         import warnings
         with warnings.catch_warnings():
             warnings.simplefilter("ignore", SyntaxWarning)
-            code = compile(src, path, "exec")
+            from .desugar import desugar
+            tree, n, skipped = desugar(src, path)
+            self.desugared[name] = (n, skipped)
+            code = compile(tree, path, "exec")
         exec(code, mod.__dict__)
         return mod
 
